@@ -330,6 +330,23 @@ func init() {
 				{"small-then-big", seeds[3].Text, seeds[0].Text, []string{"-a"}, []string{"-a"}, true},
 				{"syntax-then-lexer-only", seeds[0].Text, seeds[2].Text, []string{"-a"}, []string{"-a"}, false},
 			}
+			// a grammar whose productions table is well over 4 KB, and the same grammar with one character of a late
+			// action changed (same length): the second run must still write what it writes into an empty directory
+			{
+				mk := func(last string) string {
+					t := "a : 'a' ;\nb : 'b' ;\n"
+					for i := 0; i < 40; i++ {
+						act := fmt.Sprintf("\"p%02d\", nil", i)
+						if i == 37 {
+							act = last
+						}
+						t += fmt.Sprintf("N%d : a N%d b << %s >> | b << %s >> ;\n", i, (i+1)%40, act, act)
+					}
+					return t
+				}
+				reruns = append(reruns, rr{"same-size-edit-late-in-a-large-file", mk("\"pXa\", nil"), mk("\"pXb\", nil"), []string{"-a"}, []string{"-a"}, true},
+					rr{"same-size-edit-late-zip", mk("\"pXa\", nil"), mk("\"pXb\", nil"), []string{"-a", "-zip"}, []string{"-a", "-zip"}, true})
+			}
 			for ri, x := range reruns {
 				mk := func(tag string) (string, string) {
 					jroot := filepath.Join(sw.root, fmt.Sprintf("rr%d%s", ri, tag))
